@@ -35,7 +35,7 @@ TIERS = {
 }
 RULE = ("Configuration = sampler {mh, mhcustom with a deterministic contraction, _dummy1d} x nsamples 1-10 (quick) x "
         "nburnout 0-6 x step size x dim 1-3 x f output {scalar, vector, tuple, constant, its own argument, a view of it, a stored tensor} x backward-only sampler options x parameters of f and of log p "
-        "{explicit tensors, held by one of 12 EditableModule / nn.Module kinds, f and log p on the same object or on two} "
+        "{explicit tensors, held by one of 14 EditableModule / nn.Module kinds, f and log p on the same object or on two} "
         "x some tensors not requiring grad x an extra tensor entering neither function x usage {forward, backward, "
         "graph-recording backward + second backward, linearity triple, peer failing at its k-th entry then retry, three successive plain backward passes}; in-place or pure custom step; non-float tuple component; explicit parameters computed from one another; only the start point requiring grad; backward pass under a caller-opened substitution; one torch RNG seed per run. The history of "
         "points at which f, log p and the custom step are entered, and of RNG draws, is recorded and judged against the "
